@@ -277,3 +277,7 @@ def run(ctx):
             ctx.correspondence_broken(
                 "monitor:validB-vs-python-validity",
                 json.dumps(dict(lean_ok=lean_ok, lean_reason=reason, python=pyv, op=op, array=enc))[:4000])
+
+
+def replay(ctx, payload):
+    return stream.replay(ctx, payload, canon_kw=dict(drop_zero=True))
